@@ -956,7 +956,49 @@ pub struct SParams {
     pub open_pairs: Vec<String>,
 }
 
+/// Hubs: node 0 with an edge to each of k = n-1 neighbours; `isolate(0)` (which
+/// locks the node and all its neighbours) against one call of another thread
+/// that touches the hub or a neighbour. Only the ascending and the descending
+/// address order (n! is out of reach). A lock budget, a batch size, a
+/// neighbour-set threshold in `isolate` only show with many neighbours.
+fn hub_scenarios(p: &SParams, directed: bool) -> Vec<Scenario> {
+    let n = p.n;
+    let k = (n - 1) as K;
+    let init: Vec<Arc3> = (1..=k).map(|i| (0, i, i as E)).collect();
+    let mut picks: Vec<K> = vec![1, k / 2 + 1, k];
+    picks.dedup();
+    let mut others: Vec<Call> = Vec::new();
+    for j in picks {
+        others.extend([
+            Call::Mut(Op::TryConnect(0, j, 100)),
+            Call::Mut(Op::Connect(0, j, 100)),
+            Call::Mut(Op::Disconnect(0, j)),
+            Call::Mut(Op::TryConnect(j, 0, 100)),
+            Call::Mut(Op::Connect(j, 0, 100)),
+            Call::Mut(Op::Isolate(j)),
+            Call::IsConnected(0, j),
+            Call::Collect(j),
+        ]);
+        if directed {
+            others.push(Call::CollectIn(j));
+        }
+    }
+    others.extend([Call::Degree(0), Call::Collect(0), Call::Orders(0)]);
+    let asc: Vec<K> = (0..n as K).collect();
+    let desc: Vec<K> = asc.iter().rev().cloned().collect();
+    let mut out = Vec::new();
+    for b in others {
+        for ao in [&asc, &desc] {
+            out.push(Scenario { n, init: init.clone(), addr_order: ao.clone(), threads: vec![vec![Call::Mut(Op::Isolate(0))], vec![b]] });
+        }
+    }
+    out
+}
+
 pub fn scenarios(p: &SParams, directed: bool) -> Vec<Scenario> {
+    if p.shape == "hubiso" {
+        return hub_scenarios(p, directed);
+    }
     let mut out = Vec::new();
     let m0 = mutators(p.n, 10);
     let m1 = mutators(p.n, 11);
